@@ -56,11 +56,11 @@ REQUIRED_UNITS = {
     "C05": _FILE + ["Reader"], "C06": _FILE, "C07": ["TVersions", "TVlr", "Dims"], "C08": ["TVlr", "TExtra"],
     "C09": ["TDims", "TComposed"], "C10": ["TDims", "TComposed", "Views"], "C11": [], "C12": ["TDims", "TComposed", "TVersions", "Dims"],
     "C13": ["TDims", "TExtra"], "C14": ["Compression"], "C15": ["Copc", "TCopc"], "C16": [], "C17": [], "C18": [],
-    "C19": _FILE, "C20": ["GE", "TGeMasks"],
+    "C19": _FILE + ["Order"], "C20": ["GE", "TGeMasks"],
 }
 
 
-FUNCTION_UNITS = {"GE", "Compression", "Dims", "Copc", "Reader", "Views"}
+FUNCTION_UNITS = {"GE", "Compression", "Dims", "Copc", "Reader", "Views", "Order"}
 
 
 class Check:
